@@ -68,6 +68,11 @@ def _describe(case):
     )
 
 
+def _noteless(picture):
+    """an SSC chart holding neither NOTES nor NOTES2: loadable, but serializing it is a KeyError"""
+    return any("ssc" in ch and not any(k in ("NOTES", "NOTES2") for k, _ in ch["ssc"]) for ch in picture["charts"])
+
+
 def _load_candidates(case, uni, raw):
     """pictures of the simfile the decoded text loads to (with and without newline translation)"""
     from msdparser import MSDParserError
@@ -251,7 +256,9 @@ def check(case):
             for op in script:
                 ff.apply_edit(sf, op, enc)
             exit_ = ff.canon(sf)
-            if ff.in_gap(exit_) or (bak and ff.in_gap(entry)):
+            if _noteless(exit_) or _noteless(entry):
+                excluded = "SSC chart without note data (cannot be serialized: excluded as in C04, an unserialisable state in C06)"
+            elif ff.in_gap(exit_) or (bak and ff.in_gap(entry)):
                 excluded = "msdparser dependency gap (left over after repair)"
             elif not ff.picture_encodable(exit_, enc) or (bak and not ff.picture_encodable(entry, enc)):
                 excluded = "simfile not representable in the detected encoding (C06's subject)"
